@@ -63,6 +63,19 @@ fn run_partition(name: &str, stream: &[u8], cuts: &[usize], out: &mut dyn Write)
         if c > prev {
             feed_chunk(&mut pb, &stream[prev..c], out);
             prev = c;
+            if (cuts.len() + c) % 5 == 0 {
+                // an empty buffer (an exhausted cursor) between two chunks: nothing is consumed,
+                // nothing is reported, the partly assembled frame stays
+                let empty: [u8; 0] = [];
+                let mut cur = Cursor::new(&empty[..]);
+                let res = pb.feed(&mut cur);
+                let r = match res {
+                    PacketBuildResult::Complete(raw) => format!("C {} {}", (raw.packet_type() << 4) | raw.flags(), hex(raw.data_as_slice())),
+                    PacketBuildResult::Incomplete => "I".to_string(),
+                    PacketBuildResult::Error(_) => "E".to_string(),
+                };
+                writeln!(out, "F  = {} ; 0 ; {}", r, pb.verif_state()).unwrap();
+            }
         }
     }
     writeln!(out, "END").unwrap();
